@@ -502,6 +502,8 @@ impl Property for C06 {
         dp.max_users = 1;
         dp.square_only = false;
         dp.escapes = true;
+        dp.big_matrix = true;
+        dp.homographs = 130;
         let build = (dic_model(dp.clone()), vec(mutation(), 0..=3), any::<bool>(), vec(pool_string(6), 0..3)).prop_map(|(dic, muts, target_user, probes)| {
             let (matrix, system_csv, user_csv) = apply_mutations(&dic, &muts, target_user);
             let mut probes = probes;
@@ -594,6 +596,46 @@ impl Property for C06 {
             }
         }
         rep
+    }
+    fn extra(&self, tier: Tier, _seed: u64, ctx: &mut Ctx, stats: &mut Stats) -> Vec<(Value, Failure)> {
+        // sizes on the limits of the binary format that no random draw reaches: the number of
+        // distinct parts of speech (16-bit count, limit 32,767), homographs of one key (127 ids),
+        // matrices with more than 32,767 / 65,535 cells whose last cells carry costs
+        let mut fam: Vec<(String, Case)> = Vec::new();
+        let pos_counts: Vec<usize> = match tier {
+            Tier::Quick => vec![255, 256, 257, 32_767, 32_768, 32_769, 65_535, 65_536, 65_537],
+            Tier::Thorough => vec![127, 128, 129, 255, 256, 257, 1023, 1024, 16_383, 16_384, 32_766, 32_767, 32_768, 32_769, 32_770, 65_534, 65_535, 65_536, 65_537, 70_000],
+        };
+        for n in pos_counts {
+            let mut csv = String::with_capacity(n * 60);
+            for i in 0..n {
+                csv.push_str(&format!("k{i},0,0,100,k{i},名詞,P{i},*,*,*,*,k{i},k{i},*,A,*,*,*,*\n"));
+            }
+            let probes = vec!["k0".to_string(), format!("k{}", n - 1), format!("k{}k{}", n / 2, n - 2)];
+            fam.push((format!("{} distinct parts of speech", n), Case::Build { matrix: "1 1\n0 0 5\n".into(), system_csv: csv, user_csv: None, probes, mutated: true }));
+        }
+        for n in [63usize, 64, 65, 126, 127, 128, 129, 255, 256, 257] {
+            let mut csv = String::new();
+            for i in 0..n {
+                csv.push_str(&format!("あ,0,0,{},あ,名詞,普通名詞,一般,*,*,*,R{i},あ,*,A,*,*,*,*\n", 100 + i));
+            }
+            csv.push_str("い,0,0,100,い,名詞,普通名詞,一般,*,*,*,い,い,*,A,*,*,*,*\n");
+            fam.push((format!("{} homographs of one key", n), Case::Build { matrix: "1 1\n".into(), system_csv: csv, user_csv: None, probes: vec!["あ".into(), "いあい".into()], mutated: true }));
+        }
+        for (nl, nr) in [(181u32, 181u32), (182, 182), (256, 128), (128, 257), (256, 256), (257, 255), (300, 300)] {
+            let mut m = format!("{} {}\n", nl, nr);
+            for (l, r) in [(0, 0), (nl - 1, nr - 1), (nl - 1, 0), (0, nr - 1), (nl / 2, nr / 2), (nl - 2, nr - 1)] {
+                m.push_str(&format!("{} {} {}\n", l, r, (l * 7 + r) % 3000));
+            }
+            let lim = nl.min(nr);
+            let csv = format!(
+                "a,{x},{x},100,a,名詞,普通名詞,一般,*,*,*,a,a,*,A,*,*,*,*\nb,0,{y},100,b,名詞,普通名詞,一般,*,*,*,b,b,*,A,*,*,*,*\nc,{y},0,100,c,名詞,普通名詞,一般,*,*,*,c,c,*,A,*,*,*,*\n",
+                x = lim - 1,
+                y = lim / 2
+            );
+            fam.push((format!("{} x {} matrix", nl, nr), Case::Build { matrix: m, system_csv: csv, user_csv: None, probes: vec!["abc".into(), "aacb".into()], mutated: true }));
+        }
+        run_family(self, ctx, stats, "size-family", fam)
     }
     fn sample(&self, case: &Case) -> Value {
         match case {
